@@ -21,7 +21,7 @@ type leaf struct {
 	kind  string // num | bool | null | undef | str | obj
 	rep   string // representation requested: "", native, imported, imported-scanned
 	core  bool   // member of the reduced partner pool used for the deep levels of the quick tier
-	mid   bool   // (informational) representative content kept in every string representation
+	mid   bool   // member of the partner pool of the thorough tier (all non-strings + representative string contents in every representation)
 	fresh bool   // make a new value for every evaluation
 	mk    func(w *worker) goja.Value
 	js    string // JS source text of the value if it can be written as a literal expression ("" = cannot)
@@ -308,7 +308,7 @@ func buildLeaves() []*leaf {
 			if how != "valueOf" && i%3 != 0 {
 				continue // the other two routes for every third inner value
 			}
-			ls = append(ls, &leaf{name: "obj:" + how + ":" + in.name, m: nm.Obj(in.m), kind: "obj", mid: true, core: how == "valueOf" && (i == 0 || i == 1 || i == 3 || i == 8 || i == 9 || i == 12 || i == 15 || i == 16),
+			ls = append(ls, &leaf{name: "obj:" + how + ":" + in.name, m: nm.Obj(in.m), kind: "obj", mid: true, fresh: strings.HasPrefix(in.name, "str:imported"), // a lazily scanned inner string must not carry state between evaluations core: how == "valueOf" && (i == 0 || i == 1 || i == 3 || i == 8 || i == 9 || i == 12 || i == 15 || i == 16),
 				mk: func(w *worker) goja.Value {
 					v, err := w.mkObj[how](goja.Undefined(), in.mk(w))
 					if err != nil {
@@ -318,7 +318,7 @@ func buildLeaves() []*leaf {
 				}})
 		}
 		if in.m.K == nm.Number || in.m.K == nm.String || in.m.K == nm.Bool {
-			ls = append(ls, &leaf{name: "obj:wrapper:" + in.name, m: nm.Obj(in.m), kind: "obj", mid: true,
+			ls = append(ls, &leaf{name: "obj:wrapper:" + in.name, m: nm.Obj(in.m), kind: "obj", mid: true, fresh: strings.HasPrefix(in.name, "str:imported"),
 				mk: func(w *worker) goja.Value {
 					v, err := w.mkObj["wrapper"](goja.Undefined(), in.mk(w))
 					if err != nil {
